@@ -22,6 +22,25 @@ func main() {
 		os.Exit(cmdCheck(os.Args[2:]))
 	case "baseline":
 		os.Exit(cmdBaseline(os.Args[2:]))
+	case "effects":
+		p, err := loadProgram("/repo")
+		if err != nil {
+			fmt.Println(err)
+			os.Exit(2)
+		}
+		for _, k := range os.Args[2:] {
+			fn := p.FuncByKey[k]
+			if fn == nil {
+				fmt.Println(k, ": not found")
+				continue
+			}
+			e := p.effectsOf(fn)
+			fmt.Println(k, "top=", e.top, "keys=", sortedKeys(e.keys))
+			if e.top {
+				p.explainTop(fn, map[string]bool{}, "  ")
+			}
+		}
+		os.Exit(0)
 	case "replay":
 		os.Exit(cmdReplay(os.Args[2:]))
 	}
@@ -114,6 +133,21 @@ func cmdDev(args []string) int {
 			}
 			fmt.Println("   inlined:", strings.Join(rep.Inlined, ", "))
 			fmt.Println("   abstracted:", strings.Join(rep.Abstracted, ", "))
+		}
+	}
+	if re.MatchString(packageKey) || *fpat == "." {
+		rep := verifyWriters(p)
+		fmt.Printf("== %s\n", packageKey)
+		for _, e := range rep.Errors {
+			fmt.Println("   ERROR:", e)
+			bad++
+		}
+		for _, r := range rep.Results {
+			fmt.Printf("   %-8s %-60s sites=%d %s\n", r.Status, r.Name, r.Sites, r.Backend)
+			if r.Status != "proved" {
+				bad++
+				fmt.Println("            ", r.FailSite)
+			}
 		}
 	}
 	if bad > 0 {
